@@ -1,6 +1,7 @@
 package chain
 
 import (
+	"encoding/json"
 	"fmt"
 	"github.com/MinterTeam/minter-go-node/rlp"
 	"math"
@@ -78,6 +79,30 @@ func (OracleC15) Judge(w *World, b *BlockCtx, p *ProbeResult) {
 		return
 	}
 	if ownsOrder(p.Before, m.Sender) || m.Sender.String() == burnAddr || (m.Sender == types.Address{}) {
+		// balances of a sender with open orders mix maker and taker roles; what a sell-all declares to
+		// sell can still be judged: the balance before the transaction minus the fee (or, for the reserve
+		// variant, the whole balance)
+		if kind == "sellall" {
+			before := p.Before.Balance(m.Sender, sellCoin)
+			comm := tagInt(p, "tx.commission_amount")
+			sold := tagInt(p, "tx.sell_amount")
+			// what really entered the first pool of the route
+			var hops []struct {
+				ValueIn string `json:"value_in"`
+			}
+			if json.Unmarshal([]byte(p.Tags["tx.pools"]), &hops) == nil && len(hops) > 0 {
+				if v, ok := new(big.Int).SetString(hops[0].ValueIn, 10); ok {
+					sold = v
+				}
+			}
+			if comm != nil && sold != nil && gasCoinIs(m, sellCoin) {
+				if exp := new(big.Int).Sub(before, comm); sold.Cmp(exp) != 0 && sold.Cmp(before) != 0 {
+					w.Report("C15", "slippage", "sellall-amount:"+m.Kind, fmt.Sprintf("height %d %s by %s (a maker with open orders): tx.sell_amount %s, balance before %s, balance minus fee %s", p.Height, m.Kind, m.Sender.String(), sold, before, exp), p.Height)
+					return
+				}
+				w.Probe("c15_sellall_of_order_owner_checked")
+			}
+		}
 		w.Probe("c15_skipped_sender_has_orders")
 		return
 	}
@@ -822,3 +847,5 @@ func init() {
 		ExpectProbes: []string{"c27_price_checked", "c27_conservation_checked", "c27_exact_debit", "c27_custom_gas_coin", "c27_custom_price_coin", "c27_ticker_burn", "c27_cheaper_route_checked_bancor", "c27_cheaper_route_checked_pool", "c27_gas_price_before_conversion_checked"},
 	})
 }
+
+func gasCoinIs(m *TxMeta, coin uint64) bool { return m.GasCoin == coin }
